@@ -2,16 +2,23 @@ package gjkr
 
 // C19 (GJKR part): the real gjkr.Execute runs on n members over the simulated
 // network (approach of c01.go, honest code on every seat). One seat is
-// "hostile on the wire": every envelope it publishes is replaced by
-// tape-corrupted copies (verifadapt.Mutate), optionally followed by the
-// genuine one. The victims are the other, RUNNING members: a panic in their
-// unmarshalers (Net.Decode) or in their protocol goroutine (state Receive and
-// everything the phases compute from accepted messages) is a violation.
-// In addition an observer node with the real RegisterUnmarshallers
+// "hostile on the wire": the envelopes it publishes are replaced by
+// tape-corrupted copies (verifadapt mutation recipes), optionally followed by
+// the genuine one. The victims are the other, RUNNING members: a panic in
+// their unmarshalers (Net.Decode) or in their protocol goroutine (state
+// Receive and everything the phases compute from accepted messages) is a
+// violation. In addition an observer node with the real RegisterUnmarshallers
 // registration receives every genuine envelope (round-trip oracle) and a batch
-// of corruptions of each (hostile oracle), which guarantees that every
-// registered message type is hit in every run; accusation / revealed-key
-// messages, which are empty in honest runs, are also built with tape keys.
+// of corruptions of the first envelope of each type (hostile oracle), which
+// guarantees that every registered message type is hit in every run;
+// accusation / revealed-key messages, which are empty in honest runs, are
+// also built with tape keys.
+//
+// Message contents come from crypto/rand, and what a byte-level corruption
+// does to the protocol depends on them. Therefore the whole plan of a run
+// (which recipes hit which message type) is drawn from the tape BEFORE the
+// protocol starts, and the event log carries only that plan: tape consumption
+// and fingerprint do not depend on key material.
 
 import (
 	"fmt"
@@ -56,11 +63,27 @@ var c19Types = []string{
 	"gjkr/misbehaved_ephemeral_keys_message",
 }
 
+type c19Plan struct {
+	observer    []verifadapt.MutationRecipe // corruptions of the first envelope of the type, for the observer
+	inProtocol  []verifadapt.MutationRecipe // corrupted copies the hostile seat publishes instead
+	genuineToo  bool                        // ... followed by the genuine message
+	usedObs     bool
+	usedHostile bool
+}
+
 func c19Key(tp *verifsim.Tape, label string) *ephemeral.PrivateKey {
 	b := tp.Bytes(label, 32)
 	b[0] &= 0x7f
 	b[31] |= 1
 	return ephemeral.UnmarshalPrivateKey(b)
+}
+
+func c19Names(rs []verifadapt.MutationRecipe) string {
+	var s []string
+	for _, rc := range rs {
+		s = append(s, rc.Requested())
+	}
+	return strings.Join(s, ",")
 }
 
 func c19Run(t *testing.T, r *verifsim.Run) {
@@ -71,6 +94,21 @@ func c19Run(t *testing.T, r *verifsim.Run) {
 	hostileSeat := group.MemberIndex(1 + tp.Choose("hostile-seat", n))
 	start := uint64(2 + tp.Choose("start", 3))
 	r.Logf("cfg n=%d hostile-seat=%d start=%d", n, hostileSeat, start)
+
+	// ---- the plan (all tape decisions of the protocol part) ----
+	plan := map[string]*c19Plan{}
+	for _, typ := range c19Types {
+		p := &c19Plan{}
+		for i, k := 0, 2+tp.Choose("observer-attacks", 5); i < k; i++ {
+			p.observer = append(p.observer, verifadapt.DrawRecipe(tp))
+		}
+		for i, k := 0, tp.Weighted("hostile-copies", 2, 6, 2); i < k; i++ {
+			p.inProtocol = append(p.inProtocol, verifadapt.DrawRecipe(tp))
+		}
+		p.genuineToo = len(p.inProtocol) == 0 || tp.Chance("hostile-genuine-too", 1, 2)
+		plan[typ] = p
+		r.Logf("plan %s: observer [%s] in-protocol [%s] genuine-too=%v", typ, c19Names(p.observer), c19Names(p.inProtocol), p.genuineToo)
+	}
 
 	sn := verifadapt.NewNet()
 	logger := log.Logger("verif-c19-gjkr")
@@ -116,7 +154,6 @@ func c19Run(t *testing.T, r *verifsim.Run) {
 	}
 	synctest.Wait()
 
-	seen := map[string]bool{}
 	forgedSeq := uint64(100000)
 	limit := start + ProtocolBlocks() + 3
 	for b := uint64(1); b <= limit && !r.Failed(); b++ {
@@ -137,33 +174,34 @@ func c19Run(t *testing.T, r *verifsim.Run) {
 			if r.Failed() {
 				return
 			}
-			if !seen[e.Type] || tp.Chance("attack-again", 1, 4) {
-				seen[e.Type] = true
-				h.Attack(e.Type, e.Payload, 2+tp.Choose("attacks", 5))
+			p := plan[e.Type]
+			if p != nil && !p.usedObs {
+				p.usedObs = true
+				h.AttackWith(e.Type, e.Payload, p.observer)
 				if r.Failed() {
 					return
 				}
 			}
-			if e.From != hostileNode.Index {
+			if e.From != hostileNode.Index || p == nil || p.usedHostile {
 				wire = append(wire, e)
 				continue
 			}
-			// the hostile seat: corrupted copies go out first (first message of a
-			// sender wins in every phase)
-			k := tp.Weighted("hostile-copies", 2, 6, 2)
-			for i := 0; i < k; i++ {
-				mut, kind := verifadapt.Mutate(tp, verifadapt.PBCanonical(e.Payload))
+			// the hostile seat: corrupted copies go out first (the first message
+			// of a sender wins in every phase)
+			p.usedHostile = true
+			basis := verifadapt.PBCanonical(e.Payload)
+			for _, rc := range p.inProtocol {
+				mut, kind := rc.Apply(basis)
 				forgedSeq++
 				wire = append(wire, &verifadapt.Envelope{From: e.From, Channel: e.Channel, Type: e.Type, Payload: mut, Seqno: forgedSeq})
 				injected = append(injected, e.Type+":"+kind)
 				r.Fault("in-protocol:" + kind)
 				r.Probe("in-protocol-type:" + e.Type)
 			}
-			if k == 0 || tp.Chance("hostile-genuine-too", 1, 2) {
+			if p.genuineToo {
 				wire = append(wire, e)
 			}
 		}
-		r.Logf("block %d: %d sent, %d on the wire", b, len(envs), len(wire))
 		for _, mb := range members {
 			sn.DeliverBatch(wire, mb.node.Index)
 		}
@@ -196,6 +234,11 @@ func c19Run(t *testing.T, r *verifsim.Run) {
 	if r.Failed() {
 		return
 	}
+	for _, typ := range c19Types {
+		if !plan[typ].usedObs {
+			r.Probe("type-not-captured-from-the-run:" + typ)
+		}
+	}
 
 	// accusation / key-reveal messages with content (honest runs send empty maps)
 	h.From = hostileNode.Index
@@ -227,12 +270,6 @@ func c19Run(t *testing.T, r *verifsim.Run) {
 		h.Attack(m.Type(), p, 3+tp.Choose("attacks-built", 6))
 		if r.Failed() {
 			return
-		}
-		seen[m.Type()] = true
-	}
-	for _, typ := range c19Types {
-		if !seen[typ] {
-			r.Probe("type-not-captured:" + typ)
 		}
 	}
 }
